@@ -190,11 +190,10 @@ def rule_shadowing(ctx):
     gn = find_fn(UV, "get_next_version", "DeclarationEnvironment")
     if gn is not None:
         ms2 = [m for m in walk(gn["body"]) if m["k"] == "Match" and "global_versions" in render(m["scrut"])]
-        tab = {}
-        if ms2:
-            for a in ms2[0]["arms"]:
-                tab[render(a["pat"]).replace(" ", "")] = render(strip(a["body"])).replace(" ", "")
-        ctx.check(R, "DeclarationEnvironment::get_next_version/table", tab == {"None": "None", "Some(None)": "Some(0)", "Some(Some(version))": "Some((version+1))"}, str(tab), site(UV, gn))
+        import alpha
+
+        tab = alpha.arm_table(ms2[0]) if ms2 else {}
+        ctx.check(R, "DeclarationEnvironment::get_next_version/table", tab == {"None": "None", "Some(None)": "Some(0)", "Some(Some(b1))": "Some((b1+1))"}, str(tab), site(UV, gn))
         t = render(gn["body"]).replace(" ", "")
         import sgrep
         pvn_ = sgrep.params(gn)
@@ -208,12 +207,33 @@ def rule_shadowing(ctx):
     if tf is None:
         ctx.missing(R, "TryFrom<&Parameters> for DeclarationEnvironment")
     else:
+        import sgrep
+
         add = list(method_calls(tf["body"], "add_declaration"))
-        ok = len(add) == 1 and render(strip(add[0]["recv"])) == "env"
-        cs = [fact_str(c).replace(" ", "") for c in (conditions_to(tf["body"], add[0]) or [])] if add else []
-        ctx.check(R, "parameters/recorded-as-declarations", ok and cs == ["fornameinparams.iter()"], "env.add_declaration per parameter, under %s" % cs, site(UV, tf))
+        lenv = sgrep.lets(tf["body"])
+        pv = sgrep.params(tf)
+        from astlib import block_tail
+
+        tail = block_tail(tf["body"])
+        bt = {}
+        returned = sgrep.match(sgrep.pattern("Ok(__r)"), tail, bt) if tail is not None else False
+        ok = len(add) == 1 and returned and render(strip(add[0]["recv"])) == bt.get("__r")
+        conds = (conditions_to(tf["body"], add[0]) or []) if add else []
+        cs = [fact_str(c).replace(" ", "") for c in conds]
+        # the only condition is the loop over the parameter list, and the declared name is the loop variable
+        loop_ok = len(conds) == 1 and conds[0][0] == "loop" and conds[0][1] == "for" and pv and render(strip(conds[0][3])).replace(" ", "") in (pv[0], pv[0] + ".iter()")
+        if loop_ok:
+            lv = render(conds[0][2]).replace("&", "").strip()
+            loop_ok = sgrep.match(sgrep.pattern("%s.to_string()" % lv), add[0]["args"][0], {}, lenv) or render(strip(add[0]["args"][0])) == lv
+        ctx.check(R, "parameters/recorded-as-declarations", bool(ok and loop_ok), "add_declaration on the returned environment for every parameter, under %s" % cs, site(UV, tf))
         rets = [r for r in walk(tf["body"]) if r["k"] == "Return"]
-        okr = len(rets) == 1 and "ParameterNameCollisionError" in render(rets[0]) and any(".is_some()" in fact_str(c) and "add_declaration" in fact_str(c) and not fact_str(c).startswith("!") for c in (conditions_to(tf["body"], rets[0]) or []))
+        okr = False
+        if len(rets) == 1 and "ParameterNameCollisionError" in render(rets[0]):
+            for c in conditions_to(tf["body"], rets[0]) or []:
+                if c[0] == "if" and c[2] and sgrep.match(sgrep.pattern("__e.add_declaration(__a, __b, __c).is_some()"), c[1], {}, lenv):
+                    okr = True
+                if c[0] == "iflet" and c[3] and render(c[1]).startswith("Some(") and sgrep.match(sgrep.pattern("__e.add_declaration(__a, __b, __c)"), c[2], {}, lenv):
+                    okr = True
         ctx.check(R, "parameters/collision-is-an-error", okr, render(rets[0])[:120] if rets else "no error return", site(UV, tf))
     eu = find_fn(UV, "ensure_unique_variables")
     if eu is not None:
